@@ -729,6 +729,41 @@ def syntactic_nonneg(e):
     return mono_ok(e)
 
 
+def _nonneg_struct(e, depth=0):
+    """structural non-negativity: abs patterns If(c>=0,c,-c), sums/products/quotients of non-negative terms, even powers, sqrt variables"""
+    if depth > 6:
+        return False
+    if z3.is_rational_value(e):
+        return e.numerator_as_long() >= 0
+    if z3.is_const(e) and e.decl().name().startswith("sqrt!"):
+        return True
+    k = e.decl().kind() if z3.is_app(e) else None
+    ch = e.children() if z3.is_app(e) else []
+    if k == z3.Z3_OP_ITE and len(ch) == 3:
+        c, a, b = ch
+        # If(x >= 0, x, -x)
+        try:
+            if z3.is_app_of(c, z3.Z3_OP_GE) and c.children()[1].eq(z3.RealVal(0)) and c.children()[0].eq(a) and z3.simplify(a + b).eq(z3.RealVal(0)):
+                return True
+        except Exception:
+            pass
+        return _nonneg_struct(a, depth + 1) and _nonneg_struct(b, depth + 1)
+    if k in (z3.Z3_OP_ADD, z3.Z3_OP_MUL):
+        if k == z3.Z3_OP_MUL:
+            # even multiplicities of identical factors, or all factors non-negative
+            seen = {}
+            for c in ch:
+                seen[c.sexpr()] = seen.get(c.sexpr(), 0) + 1
+            if all(v % 2 == 0 for v in seen.values()):
+                return True
+        return all(_nonneg_struct(c, depth + 1) for c in ch)
+    if k == z3.Z3_OP_DIV:
+        return _nonneg_struct(ch[0], depth + 1) and _nonneg_struct(ch[1], depth + 1)
+    if k == z3.Z3_OP_POWER and z3.is_rational_value(ch[1]) and ch[1].denominator_as_long() == 1 and ch[1].numerator_as_long() % 2 == 0:
+        return True
+    return syntactic_nonneg(e)
+
+
 def sym_sqrt(x):
     if isinstance(x, SymInt):
         x = SymReal(lift(x))
@@ -752,7 +787,7 @@ def sym_sqrt(x):
         r = z3.If(root >= 0, root, -root)
         EX.sqrtcache[k] = r
         return SymReal(r)
-    if not syntactic_nonneg(x.e) and EX.branch(x.e < 0):
+    if not syntactic_nonneg(x.e) and not _nonneg_struct(x.e) and EX.branch(x.e < 0):
         raise ValueError("math domain error")
     y = z3.Real(EX.fresh_name("sqrt"))
     EX.nonlinear = True
